@@ -5,21 +5,42 @@
       non-EVM route: NewAnteHandlerNonEVM as listed (the two Nibiru guards, ValidateBasic, signature
                      verification with the installed SigGasConsumer, fee, sequence)
     → message router with the dispatch rules of authz MsgExec / wasm dispatch / gov proposals / ICA host
-    → Keeper.EthereumTx (sets the sender nonce to msg.nonce+1, refunds leftover gas from the fee collector
-      unconditionally).  No proofs in this file. *)
+    → Keeper.EthereumTx / ApplyEvmMsg: intrinsic-gas check, sender nonce reset to msg.nonce, evm.Create / evm.Call
+      (an execution that may stop before the EVM touches the nonce — insufficient balance for the value —, run to
+      the end, REVERT, abort or run out of gas), sender nonce := msg.nonce+1 after either branch (one switch per
+      branch, read off the source), leftover gas refunded from the fee collector unconditionally.
+    No proofs in this file. *)
 From Coq Require Import List Bool Arith ZArith String.
 Import ListNotations.
 Require Import Nib.C17.AnteFacts Nib.C17.MsgTree.
 Local Open Scope Z_scope.
 
 (** ---------------------------------------------------------------- messages *)
+(** what the signed Ethereum transaction asks the EVM to do.  The interpreter is not modelled: the descriptor says
+    how the code that gets run behaves, everything that depends on the chain state (can the sender pay the value?
+    is the gas limit enough?) is computed by [eth_exec] *)
+Inductive xkind := XCall | XCreate.            (* To != nil: evm.Call;  To = nil: evm.Create *)
+Inductive xout :=
+| XStop      (* the code (or the init code incl. the code deposit) runs to a normal end *)
+| XRevert    (* … ends in REVERT: state changes undone, leftover gas kept *)
+| XInvalid.  (* … aborts (invalid opcode, …): state changes undone, all gas consumed *)
+Record xinfo := {
+  x_kind : xkind;
+  x_cap : Z;      (* NOMINAL wei per gas of the sender-balance check: gasPrice (legacy) / gasFeeCap (dynamic fee) *)
+  x_intr : Z;     (* intrinsic gas: 21000 (+ 32000 for a creation) + calldata *)
+  x_exec : Z;     (* gas the code needs to get to its end *)
+  x_out : xout
+}.
+(** plain transfer to an account without code, legacy price [p] at least the base fee *)
+Definition x_transfer (p : Z) : xinfo := {| x_kind := XCall; x_cap := p; x_intr := 21000; x_exec := 0; x_out := XStop |}.
+
 Inductive leaf :=
-| EthTx (from : addr) (nonce : nat) (gas price value : Z)
-    (* MsgEthereumTx whose signature recovers to [from]; plain transfer of [value] (unibi); [price] = EFFECTIVE gas
-       price in WEI per gas (see [eff_legacy] / [eff_dynamic]); 10^12 wei = 1 unibi *)
+| EthTx (from : addr) (nonce : nat) (gas price value : Z) (x : xinfo)
+    (* MsgEthereumTx whose signature recovers to [from], carrying [value] (unibi); [price] = EFFECTIVE gas
+       price in WEI per gas (see [eff_legacy] / [eff_dynamic]); 10^12 wei = 1 unibi; [x] = call / creation *)
 | Send (from : addr)                           (* bank MsgSend of 1 unibi to a sink account *)
 | Grant (granter grantee : addr) (k : mkind)   (* authz MsgGrant with a GenericAuthorization *)
-| EthTxAs (claimed : addr) (from : addr) (nonce : nat) (gas price value : Z).
+| EthTxAs (claimed : addr) (from : addr) (nonce : nat) (gas price value : Z) (x : xinfo).
     (* the same MsgEthereumTx (signature recovers to [from]) whose unsigned `From` field is filled with [claimed] *)
 
 Definition K_ETH := 0%nat.
@@ -30,19 +51,20 @@ Definition K_GRANT := 2%nat.
     unsigned `From` field instead ([recovered = false]), whatever the sender of the bytes wrote there *)
 Definition leaf_signer (recovered : bool) (l : leaf) : addr :=
   match l with
-  | EthTx a _ _ _ _ => a | Send a => a | Grant a _ _ => a
-  | EthTxAs cl a _ _ _ _ => if recovered then a else cl
+  | EthTx a _ _ _ _ _ => a | Send a => a | Grant a _ _ => a
+  | EthTxAs cl a _ _ _ _ _ => if recovered then a else cl
   end.
 Definition leaf_kind (l : leaf) : nat :=
-  match l with EthTx _ _ _ _ _ | EthTxAs _ _ _ _ _ _ => K_ETH | Send _ => K_SEND | Grant _ _ _ => K_GRANT end.
-Definition is_eth_leaf (l : leaf) : bool := match l with EthTx _ _ _ _ _ | EthTxAs _ _ _ _ _ _ => true | _ => false end.
+  match l with EthTx _ _ _ _ _ _ | EthTxAs _ _ _ _ _ _ _ => K_ETH | Send _ => K_SEND | Grant _ _ _ => K_GRANT end.
+Definition is_eth_leaf (l : leaf) : bool := match l with EthTx _ _ _ _ _ _ | EthTxAs _ _ _ _ _ _ _ => true | _ => false end.
 
 Definition msg := tree leaf.
 Definition is_eth_msg (t : msg) : bool := match t with Leaf l => is_eth_leaf l | _ => false end.
 
 Definition leaf_basic (l : leaf) : bool :=
   match l with
-  | EthTx _ _ gas price value | EthTxAs _ _ _ gas price value => (0 <=? gas) && (0 <=? price) && (0 <=? value)
+  | EthTx _ _ gas price value x | EthTxAs _ _ _ gas price value x =>
+      (0 <=? gas) && (0 <=? price) && (0 <=? value) && (0 <=? x_cap x) && (0 <=? x_intr x) && (0 <=? x_exec x)
   | Send _ => true
   | Grant a b _ => negb (Nat.eqb a b)
   end.
@@ -61,7 +83,7 @@ Definition eff_dynamic (fee_cap tip_cap : Z) : Z := Z.max BASE_FEE_WEI (Z.min (B
     WeiToNative(p × g) — or, if the code converted the price first, WeiToNative(p) × g *)
 Definition prepay (exact : bool) (g p : Z) : Z := if exact then (g * p) / WEI else (p / WEI) * g.
 (** what Keeper.RefundGas pays back: WeiToNative(leftover gas × p) *)
-Definition refund_of (g p : Z) : Z := ((g - GAS_TRANSFER) * p) / WEI.
+Definition refund_of (g used p : Z) : Z := ((g - used) * p) / WEI.
 
 (** ---------------------------------------------------------------- state *)
 Record st := {
@@ -105,23 +127,6 @@ Record world := {
   w_ica_allow : mkind -> bool
 }.
 
-(** the msg-server handlers.  Keeper.EthereumTx: ApplyEvmMsg sets the sender nonce to msg.nonce + 1 whatever
-    it was, moves the value, consumes GAS_TRANSFER, and RefundGas pays (gas − used) × price back from the
-    fee collector — it ASSUMES the ante handler charged gas × price and checked the nonce *)
-Definition leaf_run (w : world) (s : st) (l : leaf) : option st :=
-  match l with
-  | EthTx from nonce gas price value | EthTxAs _ from nonce gas price value =>
-      (* the msg server recovers the sender from the signature itself; the `From` field plays no role *)
-      if gas <? GAS_TRANSFER then None                     (* intrinsic gas too low: the message fails *)
-      else if bal_of s from <? value then None
-      else let refund := refund_of gas price in
-           if feecol s <? refund then None
-           else Some (add_ran (add_fee (add_bal (add_bal (set_seq s from (S nonce)) from (refund - value)) (w_sink w) value) (- refund)) l)
-  | Send from =>
-      if bal_of s from <? 1 then None else Some (add_bal (add_bal s from (-1)) (w_sink w) 1)
-  | Grant a b k => Some (add_grant s (a, b, k))
-  end.
-
 (** ---------------------------------------------------------------- what the code is, per generated facts *)
 Record cfg := {
   nonevm_known : bool;      (* no extension option → NewAnteHandlerNonEVM *)
@@ -146,10 +151,59 @@ Record cfg := {
   e_gas : bool;             (* EthGasConsume: gas × price deducted up front *)
   fee_exact : bool;         (* keeper.VerifyFee: the deducted amount is WeiToNative(price × gasLimit) *)
   e_seq : bool;             (* EthIncrementSenderSequence: nonce = sequence, then sequence + 1 *)
+  (* msg server, ApplyEvmMsg *)
+  nonce_reset : bool;       (* StateDB.SetNonce(from, msg.Nonce()) before the EVM runs *)
+  post_nonce_call : bool;   (* StateDB.SetNonce(from, msg.Nonce()+1) after evm.Call, whatever its result *)
+  post_nonce_create : bool; (* … after evm.Create, whatever its result *)
   (* wasm message handler *)
   wasm_signer : bool;       (* signer of a dispatched message must be the contract *)
   wasm_no_eth : bool        (* MsgEthereumTx refused *)
 }.
+
+(** ---------------------------------------------------------------- the msg-server handlers *)
+(** evm.Call / evm.Create for the sender [from] in state [s] with [gas] (the whole gas limit):
+    gas used, did it end without a VM error (only then the value moves), did evm.Create get as far as bumping
+    the caller's nonce (it does so right after the balance check, before its snapshot) *)
+Record xres := { r_used : Z; r_ok : bool; r_evm_nonce : bool }.
+
+Definition eth_exec (s : st) (from : addr) (gas value : Z) (x : xinfo) : xres :=
+  if bal_of s from <? value
+  then {| r_used := x_intr x; r_ok := false; r_evm_nonce := false |}   (* ErrInsufficientBalance: nothing ran *)
+  else
+    let bump := match x_kind x with XCreate => true | XCall => false end in
+    if gas - x_intr x <? x_exec x
+    then {| r_used := gas; r_ok := false; r_evm_nonce := bump |}         (* out of gas: all of it is gone *)
+    else match x_out x with
+         | XStop => {| r_used := x_intr x + x_exec x; r_ok := true; r_evm_nonce := bump |}
+         | XRevert => {| r_used := x_intr x + x_exec x; r_ok := false; r_evm_nonce := bump |}
+         | XInvalid => {| r_used := gas; r_ok := false; r_evm_nonce := bump |}
+         end.
+
+Definition post_nonce (c : cfg) (k : xkind) : bool :=
+  match k with XCall => post_nonce_call c | XCreate => post_nonce_create c end.
+
+(** Keeper.EthereumTx: ApplyEvmMsg fails the MESSAGE when the gas limit is below the intrinsic gas; otherwise it
+    resets the sender nonce to msg.nonce, runs the EVM (a VM error is NOT a message failure), writes
+    msg.nonce + 1, and RefundGas pays (gas − used) × price back from the fee collector — it ASSUMES the ante
+    handler charged gas × price and checked the nonce *)
+Definition leaf_run (c : cfg) (w : world) (s : st) (l : leaf) : option st :=
+  match l with
+  | EthTx from nonce gas price value x | EthTxAs _ from nonce gas price value x =>
+      (* the msg server recovers the sender from the signature itself; the `From` field plays no role *)
+      if gas <? x_intr x then None                     (* intrinsic gas too low: the message fails *)
+      else
+        let r := eth_exec s from gas value x in
+        let s0 := if nonce_reset c then set_seq s from nonce else s in
+        let s1 := if r_evm_nonce r then set_seq s0 from (S (seq_of s0 from)) else s0 in
+        let s2 := if post_nonce c (x_kind x) then set_seq s1 from (S nonce) else s1 in
+        let s3 := if r_ok r then add_bal (add_bal s2 from (- value)) (w_sink w) value else s2 in
+        let refund := refund_of gas (r_used r) price in
+        if feecol s <? refund then None
+        else Some (add_ran (add_fee (add_bal s3 from refund) (- refund)) l)
+  | Send from =>
+      if bal_of s from <? 1 then None else Some (add_bal (add_bal s from (-1)) (w_sink w) 1)
+  | Grant a b k => Some (add_grant s (a, b, k))
+  end.
 
 (** AnteDecoratorAuthzGuard on one top-level message *)
 Fixpoint authz_guard_inner (t : msg) : bool :=   (* used only when the guard recurses *)
@@ -171,7 +225,7 @@ Definition wasm_admits (c : cfg) (ctr : addr) (t : msg) : bool :=
   (negb (wasm_signer c) || Nat.eqb (signer leaf (leaf_signer (signer_recovered c)) t) ctr) && negb (wasm_no_eth c && is_eth_msg t).
 
 Definition run_msg (c : cfg) (w : world) : msg -> st -> option st :=
-  run leaf (leaf_signer (signer_recovered c)) leaf_kind st leaf_basic (leaf_run w) granted (w_reflects w) (wasm_admits c) (w_gov w)
+  run leaf (leaf_signer (signer_recovered c)) leaf_kind st leaf_basic (leaf_run c w) granted (w_reflects w) (wasm_admits c) (w_gov w)
       (w_ica_acct w) (w_ica_allow w).
 
 Definition run_msgs (c : cfg) (w : world) (ms : list msg) (s : st) : option st :=
@@ -217,8 +271,8 @@ Definition nonevm_ante (c : cfg) (w : world) (s : st) (x : tx) : option st :=
 (** the EVM ante chain.  In the code each decorator loops over all messages before the next decorator
     runs; EthGasConsume touches balances only and EthIncrementSenderSequence sequences only, so the two
     loops are folded into one pass per message here (same failures, same final state) *)
-Definition eth_parts (t : msg) : option (addr * nat * Z * Z * Z) :=
-  match t with Leaf (EthTx a n g p v) => Some (a, n, g, p, v) | _ => None end.
+Definition eth_parts (t : msg) : option (addr * nat * Z * Z * Z * xinfo) :=
+  match t with Leaf (EthTx a n g p v x) => Some (a, n, g, p, v, x) | _ => None end.
 
 Definition evm_admit_one (c : cfg) (s : st) (a : addr) (n : nat) (g p : Z) : option st :=
   match (if e_gas c then let fee := prepay (fee_exact c) g p in
@@ -234,7 +288,7 @@ Fixpoint evm_admit (c : cfg) (ms : list msg) (s : st) : option st :=
   | [] => Some s
   | m :: r =>
       match eth_parts m with
-      | Some (a, n, g, p, _) =>
+      | Some (a, n, g, p, _, _) =>
           match evm_admit_one c s a n g p with Some s1 => evm_admit c r s1 | None => None end
       | None => None
       end
@@ -245,8 +299,10 @@ Definition evm_ante (c : cfg) (w : world) (s : st) (x : tx) : option st :=
      && (if e_vb c then forallb is_eth_msg (t_msgs x) && forallb basic_msg (t_msgs x)
                         && match t_key x with KNone => true | _ => false end
          else true)
+     (* VerifyEthAcc: balance (in wei) >= TxData.Cost() = gas limit × NOMINAL price + value, every message against
+        the balance before the transaction; CanTransferDecorator's "balance >= value" is implied by it *)
      && (if e_acc c then forallb (fun m => match eth_parts m with
-                                          | Some (a, _, g, p, v) => (g * p) / WEI + v <=? bal_of s a
+                                          | Some (a, _, g, _, v, x) => g * x_cap x + v * WEI <=? bal_of s a * WEI
                                           | None => true end) (t_msgs x) else true)
   then evm_admit c (t_msgs x) s   (* every later decorator also rejects a message that is not a MsgEthereumTx *)
   else None.
@@ -277,7 +333,8 @@ Definition guard_active (chain : list string) (name : string) (g : guard) (needs
   mem name chain && g_found g && g_rejects g && forallb (fun t => mem t (g_tests g)) needs.
 
 Definition cfg_of_facts (nonevm evm : list string) (x : ext_facts) (gp ga : guard) (wh : wasm_facts)
-           (sgc : string) (registered_ext : list string) (eth_signers_recovered : bool) (fee_of_total : bool) : cfg :=
+           (sgc : string) (registered_ext : list string) (eth_signers_recovered : bool) (fee_of_total : bool)
+           (apply_nonce : bool * bool * bool) : cfg :=
   {| nonevm_known := match route_of x NoExt with RouteNonEVM => true | _ => false end;
      evm_route := route_of x EvmExt;
      other_route := route_of x OtherExt;
@@ -299,6 +356,7 @@ Definition cfg_of_facts (nonevm evm : list string) (x : ext_facts) (gp ga : guar
      e_gas := mem N_ETH_GAS evm;
      fee_exact := fee_of_total;
      e_seq := mem N_ETH_INCR_SEQ evm;
+     nonce_reset := fst (fst apply_nonce); post_nonce_call := snd (fst apply_nonce); post_nonce_create := snd apply_nonce;
      wasm_signer := w_signer_is_contract wh;
      wasm_no_eth := w_refuses_eth wh |}.
 
@@ -307,6 +365,7 @@ Definition cfg_current : cfg :=
   {| nonevm_known := true; evm_route := RouteEVM; other_route := RouteReject; other_decodable := false;
      g_prevent := true; g_authz := true; g_authz_exec := true; g_authz_rec := false; vb_on := true; sig_on := true; sig_accepts_eth := false; signer_recovered := true;
      fee_on := true; seq_on := true; e_vb := true; e_sig := true; e_acc := true; e_gas := true; fee_exact := true; e_seq := true;
+     nonce_reset := true; post_nonce_call := true; post_nonce_create := true;
      wasm_signer := true; wasm_no_eth := true |}.
 
 Definition st_init (accts : list addr) (bal : Z) : st :=
